@@ -35,6 +35,7 @@ type schedule struct {
 	cancelMember int    // -1: nobody is interrupted
 	cancelAt     int    // relative block at which the member's run is cancelled
 	restartAfter int    // blocks until the member is started again
+	more         []interruption // further interruptions (any member, also the same one again)
 	leaveAt      []int  // >0: the member's process dies at this block and comes back only after the Notary role is on chain
 	// event driven churn (block numbers cannot be fixed in advance because they depend on block rewards):
 	early []bool // starts at once, dies 3 blocks after its signature record is in NNS, returns after the Notary role is on chain
@@ -42,14 +43,14 @@ type schedule struct {
 }
 
 func (s schedule) String() string {
-	return fmt.Sprintf("n=%d start=%v absent=%v leaveAt=%v early=%v late=%v cancel(member %d at block %d, restart after %d)", s.n, s.start, s.absent, s.leaveAt, s.early, s.late, s.cancelMember, s.cancelAt, s.restartAfter)
+	return fmt.Sprintf("n=%d start=%v absent=%v leaveAt=%v early=%v late=%v cancel(member %d at block %d, restart after %d) more=%v", s.n, s.start, s.absent, s.leaveAt, s.early, s.late, s.cancelMember, s.cancelAt, s.restartAfter, s.more)
 }
 
 func (s schedule) nontrivial() bool {
 	if s.n < 2 {
 		return false
 	}
-	if s.cancelMember >= 0 || s.leaveAt != nil || s.early != nil {
+	if s.cancelMember >= 0 || s.leaveAt != nil || s.early != nil || len(s.more) > 0 {
 		return true
 	}
 	for i := range s.start {
@@ -97,6 +98,9 @@ func prmFor(sim *simchain.Sim, i int, ctx context.Context) deploy.Prm {
 	return prm
 }
 
+// interruption: a member's process is killed at a block and started again later.
+type interruption struct{ member, at, restartAfter int }
+
 type memberRun struct {
 	cancel context.CancelFunc
 	done   chan error
@@ -111,6 +115,7 @@ func driveDeploy(sim *simchain.Sim, s schedule, quiet time.Duration, maxBlocks i
 	errs = make([]error, n)
 	started := make([]bool, n)
 	cancelled, restarted := false, false
+	moreState := make([]int, len(s.more)) // 0 waiting, 1 killed, 2 restarted
 	left, rejoined := make([]bool, n), make([]bool, n)
 	sigSeen := make([]int, n)
 	firstShared := ""
@@ -195,7 +200,23 @@ func driveDeploy(sim *simchain.Sim, s schedule, quiet time.Duration, maxBlocks i
 				startMember(i)
 			}
 		}
-		if s.cancelMember >= 0 && !cancelled && rel >= s.cancelAt && started[s.cancelMember] && !finished[s.cancelMember] {
+		for k, in := range s.more {
+			switch {
+			case moreState[k] == 0 && rel >= in.at && started[in.member] && !finished[in.member] && runs[in.member] != nil:
+				moreState[k] = 1
+				runs[in.member].cancel()
+				err := <-runs[in.member].done
+				h.Op("block +%d: member %d interrupted (its run returned: %v)", rel, in.member, err != nil)
+				runs[in.member] = nil
+			case moreState[k] == 1 && rel >= in.at+in.restartAfter:
+				moreState[k] = 2
+				if runs[in.member] == nil && !finished[in.member] {
+					h.Op("block +%d: member %d restarted", rel, in.member)
+					startMember(in.member)
+				}
+			}
+		}
+		if s.cancelMember >= 0 && !cancelled && rel >= s.cancelAt && started[s.cancelMember] && !finished[s.cancelMember] && runs[s.cancelMember] != nil {
 			cancelled = true
 			runs[s.cancelMember].cancel()
 			err := <-runs[s.cancelMember].done
@@ -204,8 +225,10 @@ func driveDeploy(sim *simchain.Sim, s schedule, quiet time.Duration, maxBlocks i
 		}
 		if cancelled && !restarted && rel >= s.cancelAt+s.restartAfter {
 			restarted = true
-			h.Op("block +%d: member %d restarted", rel, s.cancelMember)
-			startMember(s.cancelMember)
+			if runs[s.cancelMember] == nil && !finished[s.cancelMember] {
+				h.Op("block +%d: member %d restarted", rel, s.cancelMember)
+				startMember(s.cancelMember)
+			}
 		}
 		all := true
 		for i := 0; i < n; i++ {
@@ -232,6 +255,13 @@ func driveDeploy(sim *simchain.Sim, s schedule, quiet time.Duration, maxBlocks i
 		bootBudget := 250 + 60*n
 		if s.leaveAt != nil || s.early != nil {
 			bootBudget += 650
+		}
+		for _, st := range s.start {
+			bootBudget = max(bootBudget, 250+60*n+st+120)
+		}
+		bootBudget += s.restartAfter
+		for _, in := range s.more {
+			bootBudget += in.restartAfter + 120
 		}
 		if rel > maxBlocks || (rel > bootBudget && !notaryOn()) {
 			// (a run that cannot even designate the Notary role will not finish: give up early)
@@ -387,6 +417,15 @@ func runSchedule(s schedule, h *ev.History, col *ev.Collector) {
 	if s.leaveAt != nil || s.early != nil {
 		maxBlocks += 600
 	}
+	// late starts and outages extend the run by their length (and by up to one 100-block validity window each)
+	for _, st := range s.start {
+		maxBlocks = max(maxBlocks, 700+150*s.n+st+100)
+	}
+	outage := s.restartAfter
+	for _, in := range s.more {
+		outage += in.restartAfter + 100
+	}
+	maxBlocks += outage
 	quiet := 12 * time.Millisecond
 	var sim *simchain.Sim
 	var errs []error
@@ -449,7 +488,7 @@ func runSchedule(s schedule, h *ev.History, col *ev.Collector) {
 func TestC13Deploy(t *testing.T) {
 	theT = t
 	col := ev.New("C13", "deploy",
-		"end-to-end: deploy.Deploy is run by every member of an n-key committee (n from VERIF_C13_N, default 1..4) against an in-process implementation of deploy.Blockchain on a real neo-go core.Blockchain with the Notary service, with the freshly compiled executables; generated schedules: per-member start block, a minority of non-leading members absent until the Notary role is on chain, one member interrupted at a generated block and restarted later; blocks are produced by the harness when the members are quiescent; oracle: every run returns nil within a block budget (one retry with slower pacing before a violation), Notary and NeoFSAlphabet roles = committee, contract 1 is the supplied NNS, every system name of the neofs zone resolves to exactly one distinct contract carrying the supplied executable, 8+n contracts, and a second run of all members changes neither the contract set/update counters nor the NNS storage nor the designations; non-trivial = n>=2 with non-simultaneous start, absence or interruption",
+		"end-to-end: deploy.Deploy is run by every member of an n-key committee (n from VERIF_C13_N, default 1..4) against an in-process implementation of deploy.Blockchain on a real neo-go core.Blockchain with the Notary service, with the freshly compiled executables; generated schedules: per-member start block (shape late: up to a minority, possibly the leader, 60..500 blocks after the others), a minority of non-leading members absent until the Notary role is on chain, one member interrupted at a generated block and restarted 1..200 blocks later, two or three interruptions of arbitrary members (multi-cancel), churn and expiry-churn around the Notary bootstrap; blocks are produced by the harness when the members are quiescent; oracle: every run returns nil within a block budget (one retry with slower pacing before a violation), Notary and NeoFSAlphabet roles = committee, contract 1 is the supplied NNS, every system name of the neofs zone resolves to exactly one distinct contract carrying the supplied executable, 8+n contracts, and a second run of all members changes neither the contract set/update counters nor the NNS storage nor the designations; non-trivial = n>=2 with non-simultaneous start, absence or interruption",
 		"the harness owns block production, start, interruption and absence - not the goroutine interleaving inside Deploy", "termination is decided as 'finishes within a budget of blocks'")
 	nsEnv := os.Getenv("VERIF_C13_N")
 	ns := []int{1, 2, 3, 4}
@@ -464,7 +503,7 @@ func TestC13Deploy(t *testing.T) {
 	runRapid(t, col, func(rt *rapid.T, h *ev.History) {
 		n := rapid.SampledFrom(ns).Draw(rt, "n")
 		s := schedule{n: n, start: make([]int, n), absent: make([]bool, n), cancelMember: -1}
-		shapes := []string{"simultaneous", "staggered", "staggered", "absent", "cancel", "cancel"}
+		shapes := []string{"simultaneous", "staggered", "staggered", "absent", "cancel", "cancel", "late", "multi-cancel", "multi-cancel"}
 		if n >= 4 {
 			shapes = append(shapes, "churn", "expiry-churn")
 		}
@@ -502,6 +541,30 @@ func TestC13Deploy(t *testing.T) {
 					s.start[i] = rapid.IntRange(135, 170).Draw(rt, "lateStart")
 				}
 			}
+		case "late":
+			// up to a minority of the members (possibly the leader) starts hundreds of blocks after the others
+			late := rapid.IntRange(1, max(1, n-(n/2+1))).Draw(rt, "lateMembers")
+			perm := rapid.Permutation(seq(0, n)).Draw(rt, "memberOrder")
+			for j, i := range perm {
+				if j < late && n > 1 {
+					s.start[i] = rapid.IntRange(60, 500).Draw(rt, "lateStart")
+				} else {
+					s.start[i] = rapid.IntRange(0, 5).Draw(rt, "startBlock")
+				}
+			}
+		case "multi-cancel":
+			// two or three interruptions of any members (also the same one twice), short and long outages
+			k := rapid.IntRange(2, 3).Draw(rt, "interruptions")
+			for j := 0; j < k; j++ {
+				s.more = append(s.more, interruption{
+					member:       rapid.IntRange(0, n-1).Draw(rt, "member"),
+					at:           rapid.IntRange(1, 80+60*n).Draw(rt, "at"),
+					restartAfter: rapid.SampledFrom([]int{1, 2, 5, 10, 25, 40, 90, 150}).Draw(rt, "restartAfter"),
+				})
+			}
+			for i := range s.start {
+				s.start[i] = rapid.IntRange(0, 5).Draw(rt, "startBlock")
+			}
 		case "staggered":
 			for i := range s.start {
 				s.start[i] = rapid.IntRange(0, 40).Draw(rt, "startBlock")
@@ -518,7 +581,7 @@ func TestC13Deploy(t *testing.T) {
 		case "cancel":
 			s.cancelMember = rapid.IntRange(0, n-1).Draw(rt, "cancelMember")
 			s.cancelAt = rapid.IntRange(1, 60+40*n).Draw(rt, "cancelAt")
-			s.restartAfter = rapid.IntRange(1, 30).Draw(rt, "restartAfter")
+			s.restartAfter = rapid.OneOf(rapid.IntRange(1, 30), rapid.IntRange(1, 30), rapid.IntRange(31, 200)).Draw(rt, "restartAfter")
 			for i := range s.start {
 				s.start[i] = rapid.IntRange(0, 5).Draw(rt, "startBlock")
 			}
